@@ -217,3 +217,164 @@ Proof.
     2:{ apply col_diff_iff. eauto. }
     replace (W - 1 + 1) with W by lia. reflexivity.
 Qed.
+
+(* ------------------------------------------------------------------ *)
+(** * The pixel loops of the encoder that write a rectangle cell by cell
+
+    clearKeptPixels (in place, conditional write), extractSubImage (row copies into a fresh
+    picture) and the padding copy of addOptimizedFrame (copyImageRect into a fresh canvas)
+    are nested loops in which iteration (x,y) reads and writes cell (x,y) only.  One generic
+    theorem gives their pointwise meaning; the instances are proved equal to the definitions
+    [clear_kept], [extract_sub] and [pad] of the model. *)
+From Webp Require Import Anim.AnimDecProof Anim.AnimDecLoops.
+
+(* body of the inner loop: an optional write of cell (x,y), computed from its current value *)
+Definition cell_step (w h : Z) (g : Z -> Z -> px -> option px) (y x : Z) (c : canvas) : canvas :=
+  match g x y (cget w c x y) with
+  | Some p => cset w h c x y p
+  | None => c
+  end.
+
+Definition write_loops (w h x0 x1 y0 y1 : Z) (g : Z -> Z -> px -> option px) (c : canvas) : canvas :=
+  for_range y0 y1 (fun y c0 => for_range x0 x1 (cell_step w h g y) c0) c.
+
+Definition cell_val (w : Z) (g : Z -> Z -> px -> option px) (c : canvas) (x y : Z) : px :=
+  match g x y (cget w c x y) with Some p => p | None => cget w c x y end.
+
+Lemma cell_step_length w h g y x c : length (cell_step w h g y x c) = length c.
+Proof. unfold cell_step. destruct (g x y _); [apply cset_length|reflexivity]. Qed.
+
+Lemma cget_cell_step w h g y x c x' y' :
+  0 < w -> length c = Z.to_nat (w * h) -> 0 <= x < w -> 0 <= y < h -> 0 <= x' < w -> 0 <= y' < h ->
+  cget w (cell_step w h g y x c) x' y' =
+    if (x' =? x) && (y' =? y) then cell_val w g c x y else cget w c x' y'.
+Proof.
+  intros Hw Hl Hx Hy Hx' Hy'. unfold cell_step, cell_val.
+  destruct (g x y (cget w c x y)) as [p|].
+  - apply cget_cset; assumption.
+  - destruct (Z.eqb_spec x' x) as [->|]; destruct (Z.eqb_spec y' y) as [->|]; reflexivity.
+Qed.
+
+Lemma inner_loop_spec w h g y : 0 < w -> 0 <= y < h ->
+  forall n v c x' y', length c = Z.to_nat (w * h) -> 0 <= v -> v + Z.of_nat n <= w ->
+    0 <= x' < w -> 0 <= y' < h ->
+    cget w (loop n v (cell_step w h g y) c) x' y' =
+      if (y' =? y) && (v <=? x') && (x' <? v + Z.of_nat n) then cell_val w g c x' y' else cget w c x' y'.
+Proof.
+  intros Hw Hy. induction n as [|n IH]; intros v c x' y' Hl Hv Hn Hx' Hy'.
+  - cbn [loop]. destruct (Z.leb_spec v x'); destruct (Z.ltb_spec x' (v + Z.of_nat 0));
+      rewrite ?andb_false_r; cbn [andb]; try reflexivity; lia.
+  - cbn [loop]. rewrite IH by (rewrite ?cell_step_length; lia).
+    unfold cell_val at 1. rewrite !cget_cell_step by (try assumption; lia).
+    destruct (Z.eqb_spec y' y) as [->|Hne]; cbn [andb].
+    2:{ rewrite andb_false_r. reflexivity. }
+    destruct (Z.eqb_spec x' v) as [->|Hxv]; cbn [andb].
+    + destruct (Z.leb_spec (v + 1) v); [lia|]. cbn [andb].
+      destruct (Z.leb_spec v v); [|lia]. destruct (Z.ltb_spec v (v + Z.of_nat (S n))); [|lia].
+      reflexivity.
+    + destruct (Z.leb_spec (v + 1) x'); destruct (Z.leb_spec v x');
+        destruct (Z.ltb_spec x' (v + 1 + Z.of_nat n)); destruct (Z.ltb_spec x' (v + Z.of_nat (S n)));
+        cbn [andb]; try lia; reflexivity.
+Qed.
+
+Theorem write_loops_eq w h x0 x1 y0 y1 g c :
+  0 < w -> 0 <= h -> length c = Z.to_nat (w * h) ->
+  0 <= x0 -> x1 <= w -> 0 <= y0 -> y1 <= h ->
+  write_loops w h x0 x1 y0 y1 g c =
+    tab w h (fun x y => if (x0 <=? x) && (x <? x1) && (y0 <=? y) && (y <? y1)
+                        then cell_val w g c x y else cget w c x y).
+Proof.
+  intros Hw Hh Hlen Bx0 Bx1 By0 By1. unfold write_loops.
+  set (rowhit := fun (_ x : Z) => (x0 <=? x) && (x <? x1)).
+  set (rowval := fun (_ : Z) (c0 : canvas) (x y : Z) => cell_val w g c0 x y).
+  set (body := fun y c0 => for_range x0 x1 (cell_step w h g y) c0).
+  assert (Hblen : forall y c0, length (body y c0) = length c0).
+  { intros y c0. unfold body, for_range. apply loop_length. intros v c1. apply cell_step_length. }
+  assert (Hrow : forall y c0 xx yy, 0 <= y < h -> length c0 = Z.to_nat (w * h) -> 0 <= xx < w -> 0 <= yy < h ->
+     cget w (body y c0) xx yy = if (yy =? y) && rowhit y xx then rowval y c0 xx yy else cget w c0 xx yy).
+  { intros y c0 xx yy Hy Hl0 Hxx Hyy. unfold body, for_range, rowhit, rowval.
+    destruct (Z.le_gt_cases x1 x0).
+    - replace (Z.to_nat (x1 - x0)) with O by lia. cbn [loop].
+      destruct (Z.leb_spec x0 xx); destruct (Z.ltb_spec xx x1); try lia;
+        rewrite ?andb_false_r; cbn [andb]; reflexivity.
+    - rewrite (inner_loop_spec w h g y Hw Hy) by (try assumption; lia).
+      rewrite Z2Nat.id by lia. replace (x0 + (x1 - x0)) with x1 by lia. rewrite andb_assoc. reflexivity. }
+  assert (Hloc : forall y c0 c1 xx yy, cget w c0 xx yy = cget w c1 xx yy -> rowval y c0 xx yy = rowval y c1 xx yy).
+  { intros y c0 c1 xx yy He. unfold rowval, cell_val. rewrite He. reflexivity. }
+  destruct (Z.eq_dec h 0) as [->|Hh0].
+  { (* no rows *)
+    assert (Hc0 : c = []) by (destruct c; [reflexivity|rewrite Z.mul_0_r in Hlen; discriminate]).
+    subst c. unfold for_range. replace (Z.to_nat (y1 - y0)) with O by lia. cbn [loop].
+    unfold tab, zrange. rewrite Z.mul_0_r. reflexivity. }
+  apply (canvas_ext w h); try lia.
+  - destruct (rows_loop_spec w h rowval rowhit body y0 y1 c 0 0 ltac:(lia) Hlen By0 By1
+               ltac:(lia) ltac:(lia) Hblen ltac:(intros; apply Hrow; try assumption; lia) Hloc) as [Hl _].
+    rewrite Hl. exact Hlen.
+  - apply tab_length.
+  - intros x y Hx Hy.
+    destruct (rows_loop_spec w h rowval rowhit body y0 y1 c x y ltac:(lia) Hlen By0 By1
+               Hx Hy Hblen ltac:(intros; apply Hrow; try assumption; lia) Hloc) as [_ Hc].
+    fold body. rewrite Hc, cget_tab by assumption. unfold rowhit, rowval.
+    destruct (Z.leb_spec y0 y); destruct (Z.ltb_spec y y1);
+    destruct (Z.leb_spec x0 x); destruct (Z.ltb_spec x x1); cbn [andb]; reflexivity.
+Qed.
+
+(* extractSubImage: a fresh w x h picture, rows copied from the canvas *)
+Definition extract_sub_loops (W : Z) (c : canvas) (r : rect) : img :=
+  let w := rx1 r - rx0 r in
+  let h := ry1 r - ry0 r in
+  if (w <=? 0) || (h <=? 0) then mkimg 1 1 [px0]
+  else mkimg w h (write_loops w h 0 w 0 h
+                    (fun x y _ => Some (cget W c (rx0 r + x) (ry0 r + y))) (blank w h)).
+
+Theorem extract_sub_loops_eq W c r : extract_sub_loops W c r = extract_sub W c r.
+Proof.
+  unfold extract_sub_loops, extract_sub.
+  destruct (Z.leb_spec (rx1 r - rx0 r) 0); [reflexivity|].
+  destruct (Z.leb_spec (ry1 r - ry0 r) 0); [reflexivity|]. cbn [orb]. f_equal.
+  rewrite write_loops_eq; try lia; [|apply tab_length].
+  apply tab_ext; [lia|]. intros x y Hx Hy. unfold cell_val.
+  destruct (Z.leb_spec 0 x); [|lia]. destruct (Z.ltb_spec x (rx1 r - rx0 r)); [|lia].
+  destruct (Z.leb_spec 0 y); [|lia]. destruct (Z.ltb_spec y (ry1 r - ry0 r)); [|lia]. reflexivity.
+Qed.
+
+(* clearKeptPixels: in place on the sub-image, bounded by the picture and by the rectangle *)
+Definition clear_kept_loops (W : Z) (sub : img) (base : canvas) (r : rect) : img :=
+  mkimg (iw sub) (ih sub)
+    (write_loops (iw sub) (ih sub) 0 (Z.min (iw sub) (rx1 r - rx0 r)) 0 (Z.min (ih sub) (ry1 r - ry0 r))
+       (fun x y p =>
+          if negb (pa p =? 255) && negb (pa p =? 0) && (pa p =? pa (cget W base (rx0 r + x) (ry0 r + y)))
+          then Some px0 else None)
+       (ipix sub)).
+
+Theorem clear_kept_loops_eq W sub base r :
+  0 < iw sub -> 0 <= ih sub -> length (ipix sub) = Z.to_nat (iw sub * ih sub) ->
+  clear_kept_loops W sub base r = clear_kept W sub base r.
+Proof.
+  intros Hw Hh Hlen. unfold clear_kept_loops, clear_kept. f_equal.
+  rewrite write_loops_eq; try lia.
+  apply tab_ext; [lia|]. intros x y Hx Hy. unfold cell_val, iget.
+  change (nth (Z.to_nat (y * iw sub + x)) (ipix sub) px0) with (cget (iw sub) (ipix sub) x y).
+  set (p := cget (iw sub) (ipix sub) x y).
+  destruct (Z.leb_spec 0 x); [|lia]. destruct (Z.leb_spec 0 y); [|lia].
+  destruct (Z.ltb_spec x (Z.min (iw sub) (rx1 r - rx0 r))); destruct (Z.ltb_spec (rx0 r + x) (rx1 r)); try lia;
+  destruct (Z.ltb_spec y (Z.min (ih sub) (ry1 r - ry0 r))); destruct (Z.ltb_spec (ry0 r + y) (ry1 r)); try lia;
+    cbn [andb]; try reflexivity.
+  destruct (negb (pa p =? 255) && negb (pa p =? 0) && (pa p =? pa (cget W base (rx0 r + x) (ry0 r + y))));
+    reflexivity.
+Qed.
+
+(* the padding copy of addOptimizedFrame: copyImageRect onto a fresh transparent canvas *)
+Definition pad_loops (W H : Z) (i : img) : canvas :=
+  write_loops W H 0 (Z.min (iw i) W) 0 (Z.min (ih i) H) (fun x y _ => Some (iget i x y)) (blank W H).
+
+Theorem pad_loops_eq W H i : 0 < W -> 0 <= H -> pad_loops W H i = pad W H i.
+Proof.
+  intros HW HH. unfold pad_loops, pad.
+  rewrite write_loops_eq; try lia; [|apply tab_length].
+  apply tab_ext; [lia|]. intros x y Hx Hy. unfold cell_val.
+  destruct (Z.leb_spec 0 x); [|lia]. destruct (Z.leb_spec 0 y); [|lia].
+  destruct (Z.ltb_spec x (Z.min (iw i) W)); destruct (Z.ltb_spec x (iw i)); try lia;
+  destruct (Z.ltb_spec y (Z.min (ih i) H)); destruct (Z.ltb_spec y (ih i)); try lia;
+    cbn [andb]; try reflexivity; unfold blank; rewrite cget_tab by lia; reflexivity.
+Qed.
